@@ -4,6 +4,7 @@ import (
 	"bytes"
 	"context"
 	"fmt"
+	"strings"
 
 	"github.com/bmeg/grip/engine/core"
 	"github.com/bmeg/grip/gdbi"
@@ -158,6 +159,10 @@ func (kgdb *KVInterfaceGDB) BulkAdd(stream <-chan *gdbi.GraphElement) error {
 
 // DelEdge deletes edge with id `key`
 func (kgdb *KVInterfaceGDB) DelEdge(eid string) error {
+	if strings.ContainsRune(eid, 0) {
+		//no stored id contains the key separator; such an id would prefix-match other edges
+		return fmt.Errorf("Edge Not Found")
+	}
 	ekeyPrefix := EdgeKeyPrefix(kgdb.graph, eid)
 	var ekey []byte
 	kgdb.kvg.kv.View(func(it kvi.KVIterator) error {
@@ -193,6 +198,10 @@ func (kgdb *KVInterfaceGDB) DelEdge(eid string) error {
 
 // DelVertex deletes vertex with id `key`
 func (kgdb *KVInterfaceGDB) DelVertex(id string) error {
+	if strings.ContainsRune(id, 0) {
+		//no stored id contains the key separator; such an id would prefix-match the edges of other vertices
+		return fmt.Errorf("Vertex Not Found")
+	}
 	vid := VertexKey(kgdb.graph, id)
 	skeyPrefix := SrcEdgePrefix(kgdb.graph, id)
 	dkeyPrefix := DstEdgePrefix(kgdb.graph, id)
@@ -595,6 +604,10 @@ func (kgdb *KVInterfaceGDB) GetInEdgeChannel(ctx context.Context, reqChan chan g
 
 // GetEdge loads an edge given an id. It returns nil if not found
 func (kgdb *KVInterfaceGDB) GetEdge(id string, loadProp bool) *gdbi.Edge {
+	if strings.ContainsRune(id, 0) {
+		//no stored id contains the key separator; such an id would prefix-match other edges
+		return nil
+	}
 	ekeyPrefix := EdgeKeyPrefix(kgdb.graph, id)
 
 	var e *gdbi.Edge
